@@ -5,6 +5,7 @@ CONSTANTS RF1 = {1, 2, 3, 4}
           RF2 = {2}
           N2 = 3
           Outcomes = {"ok", "conflict", "unavailable", "notready"}
+          Outcomes2 = {"ok", "conflict", "unavailable", "notready"}
           ReplThresholdIsQuorum = FALSE
           WithTimeout = FALSE
           CaseRF1 = {1, 2, 3, 4}
